@@ -4,6 +4,7 @@ import Blots.Drv.Print
 import Blots.Drv.Eval
 import Blots.Drv.NumText
 import Blots.Drv.Json
+import Blots.Drv.JsonText
 import Blots.Drv.Ident
 import Blots.Drv.ExprPeg
 /-
@@ -15,6 +16,7 @@ open Blots
 
 def handlers : List (List Sx → Option String) := [
   Drv.handleJson,
+  Drv.handleJsonText,
   Drv.handleIdent,
   Drv.handleExprPeg,
   Drv.handleUnits,
